@@ -36,6 +36,29 @@ def run(ctx):
                               "impl": L.jdump({"err": real2["err"], "out": real2["out"],
                                                "state": dict((k, real2["state"][k]) for k in H.STATE_KEYS)})[:1500],
                               "note": H.compare(env, case, real2, o) or d})
+    # a second kill right after the start-up block (theorem restart_twice_is_restart_once): the third real object equals the second
+    twice = 0
+    for case in cases[::3]:
+        c2 = dict(case)
+        c2["twice"] = True
+        try:
+            r = H.restart_real(env, c2)
+        except Exception as e:
+            if len(disagreements) < 3:
+                disagreements.append({"input": c2, "model": "restartNode (restartNode s) = restartNode s", "impl": "exception %s: %s" % (type(e).__name__, str(e)[:200]),
+                                      "note": "second restart failed"})
+            continue
+        twice += 1
+        a, b = r["post"], r["post2"]
+        diff = [k for k in ("log", "term", "commit", "lastApplied", "role", "leader") if a.get(k) != b.get(k)]
+        if r["x"] != r["x2"]:
+            diff.append("votedFor/votes")
+        if diff and len(disagreements) < 3:
+            disagreements.append({"input": c2, "model": "restartNode (restartNode s sc dump) sc dump = restartNode s sc dump",
+                                  "impl": L.jdump({"first": dict((k, a.get(k)) for k in diff if k in a), "second": dict((k, b.get(k)) for k in diff if k in b),
+                                                   "x": r["x"], "x2": r["x2"]})[:1200],
+                                  "note": "a node killed right after its start-up block came back different: %s" % diff})
+    cov["restart:killed-again-after-start"] = twice
     keep = dict((k, v) for k, v in sorted(cov.items()) if k.startswith("restart") or k == "op:restartnode")
     res = {"name": "corr.restart_handler", "cases": n, "distinct": len(seen), "coverage": keep,
            "samples": [cases[0] if cases else None], "disagreements": disagreements, "violations": viol[:3],
